@@ -104,6 +104,9 @@ func (t *loopTr) setupRecv() {
 		t.recvParam = id
 		return
 	}
+	if t.bigRecv() {
+		return // stage 10 (loops_big.go): a value receiver that embeds *elliptic.CurveParams
+	}
 	ptr, ok := ro.Type().(*types.Pointer)
 	if !ok {
 		t.fail(fd, "%s", shape)
